@@ -162,6 +162,70 @@ def chunk_exact_cases(g, n):
     return out
 
 
+def nested_write_ops(g, t, v, n, observe):
+    """n mutations through child views of a value (t, v) (each followed, sometimes, by an observation);
+    the value is tracked so that the child ops stay meaningful"""
+    from gen import _apply_val
+    r = g.rng
+    sg = StoreGen(g, t, v)
+    view = sg.views[0]
+    ops = []
+    for _ in range(n):
+        keys = sg.child_keys(view)
+        if not keys:
+            break
+        key = r.choice(keys)
+        ct, cv = sg.child_tv(view, key)
+        op = sg.one_op(dict(t=ct, v=cv, hook=None, kids=False))
+        if op is None or op[0] == 'sets' and kind(ct) not in ('list', 'vec'):
+            continue
+        cv2 = _apply_val(ct, cv, op)
+        if kind(t) == 'union':
+            view['v'] = ['u', view['v'][1], cv2]
+        else:
+            view['v'] = view['v'][:1 + key] + [cv2] + view['v'][2 + key:]
+        if r.random() < 0.5:
+            ops.append(observe())
+        ops.append(['sub', key, op])
+    return ops
+
+
+def boundary_hist_cases(g, n):
+    """histories that start right AFTER a chunk / subtree boundary with a non-zero last element (lengths
+    256k+1, 512k+1 bits; per-chunk multiples + 1; 2^k + 1 composite elements) and pop back across it"""
+    r = g.rng
+    out = []
+    for _ in range(n):
+        c = r.randrange(3)
+        if c == 0:
+            base = r.choice([256, 512, 512, 768, 1024, 1536])
+            ln = base + r.choice([1, 1, 1, 0, 2])
+            lim = max(ln, r.choice([ln, 2048, 1030, 4096, 2**20]))
+            t = ['bl', lim]
+            v = 'b' + ''.join(r.choice('01') for _ in range(ln - 1)) + '1'
+            one = lambda: r.choice('01')
+        elif c == 1:
+            e = r.choice(['u8', 'u16', 'u64', 'u128', 'u256', 'bool'])
+            per = 32 // UINT_W.get(e, 1)
+            ln = per * r.choice([1, 2, 2, 3, 4, 8]) + r.choice([1, 1, 0])
+            lim = max(ln, r.choice([ln, 4 * ln, 1000, 2**40]))
+            t = ['list', e, lim]
+            v = ['s'] + [g.val(e, 1) for _ in range(ln - 1)] + [g.max_val(e)]
+            one = lambda: g.val(e, 1)
+        else:
+            e = r.choice([['cont', 'u8', 'u16'], ['Bv', 32], ['list', 'u8', 3], ['vec', 'u64', 4]])
+            ln = r.choice([2, 4, 4, 8]) + r.choice([1, 1, 0])
+            lim = max(ln, r.choice([ln, 16, 9, 2**30]))
+            t = ['list', e, lim]
+            v = ['s'] + [g.max_val(e) if r.random() < 0.5 else g.val(e, 3) for _ in range(ln)]
+            one = lambda: g.val(e, 3)
+        ops = [['pop']]
+        for _ in range(r.choice([1, 3, 6])):
+            ops.append(r.choice([['pop'], ['pop'], ['app', one()], ['app', one()]]))
+        out.append(show(['hist', t, v] + ops))
+    return out
+
+
 class C01(ValProp):
     pid = 'C01'
     theorems = ['Rmk.C01.construct_root']
@@ -183,6 +247,7 @@ class C01(ValProp):
         for d in ([0, 1, 2, 31, 32, 33, 64, 100, 255] if tier == 'quick' else range(256)):
             out.append(show(['zh', d]))
         out += chunk_exact_cases(g, n // 6)
+        out += boundary_hist_cases(g, n // 6)
         return out
 
     def compare(self, case, py, mo, stats):
@@ -381,6 +446,7 @@ class C04(HistProp):
             t = nested_ty(g, g.rng.choice([1, 2, 2]))
             v = g.val(t, 12)
             out.append(show(['store', t, v] + StoreGen(g, t, v).history(g.rng.choice([6, 15, 30]))))
+        out += boundary_hist_cases(g, self.n(tier) // 5)
         if tier == 'thorough':
             # exhaustive: every op sequence of length <= 5 over a small alphabet, on small lists / bitlists
             import itertools
@@ -590,6 +656,11 @@ class DecProp(Prop):
             if r.random() < 0.5:
                 rb = bytes(r.getrandbits(8) for _ in range(r.choice([0, 1, 2, 3, 4, 5, 8, 9, 16, 33])))
                 out.append(show(['dec', t, 'x', 'x' + rb.hex(), 'x']))
+            if r.random() < 0.3:
+                # scope 0: the empty input at top level and as the payload of a union option
+                out.append(show(['dec', t, 'x', 'x', 'x']))
+                out.append(show(['dec', ['union', t, 'u16'], 'x', 'x00', 'x']))
+                out.append(show(['dec', ['union', 'none', t], 'x', 'x01', 'x']))
         # bitfield edits: every padding bit of a bitvector's last byte, delimiter edits of a bitlist,
         # at top level and as a field between other fields
         for _ in range(max(4, n // 60)):
@@ -747,6 +818,16 @@ class C11(Prop):
                 t, v = self.tv(g, tier)
                 out.append(show(['val', t, v]))
                 out.append(show(['type', t]))
+        # variable-size types whose bounds coincide (limit 0, a lone None option, ...) as fields / elements / options
+        r = g.rng
+        for _ in range(self.n(tier) // 8):
+            odd = lambda: r.choice([['list', r.choice(['u8', 'u64', ['cont', 'u8']]), 0], ['bl', 0], ['Bl', 0],
+                                    ['union', 'u8'], ['union', ['Bv', 3], ['vec', 'u8', 3]], ['list', ['list', 'u8', 0], 0],
+                                    ['cont', ['bl', 0]], ['vec', ['Bl', 0], 2]])
+            t = r.choice([['cont', 'u8', odd(), 'u16'], ['cont', odd(), odd()], ['list', odd(), 3], ['vec', odd(), 2],
+                          ['union', 'none', odd()], ['cont', ['list', 'u8', 4], odd(), 'u8', odd()]])
+            out.append(show(['type', t]))
+            out.append(show(['val', t, g.val(t, 4)]))
         return out
 
     def compare(self, case, py, mo, stats):
@@ -1101,11 +1182,14 @@ class C07(Prop):
                     cmds.append(['set', gi, ex, g.tree(r.choice([0, 0, 1, 2]), 0.5)] + probes)
                 else:
                     cmds.append(['summ', gi])
-            if r.random() < 0.3:
+            if r.random() < 0.5:
                 # the same operations on ONE lazily loaded tree object, in sequence (failed reads first)
                 seq = []
+                last = 1
                 for _ in range(r.choice([2, 4, 6])):
-                    gi = r.choice([1, r.randint(1, maxg), r.randint(1, maxg)])
+                    gi = r.choice([1, r.randint(1, maxg), r.randint(1, maxg), last, last ^ 1 if last > 1 else 1, last * 2 + r.choice([0, 1]),
+                                   (last << 2) | r.randrange(4), max(last >> 1, 1)])
+                    last = gi
                     if r.random() < 0.5:
                         seq.append(['get', gi])
                     else:
@@ -1318,7 +1402,7 @@ class C08(Prop):
             lim = r.choice([2**54, 2**56 + 1, 2**60, 2**63 - 1, 2**64])
             t = r.choice([['list', e, lim], ['vec', e, lim], ['bl', lim], ['Bl', lim]])
             key = r.choice([lim - 1, lim - r.randrange(1, 70), 2**53 + r.randrange(1, 2**12), r.randrange(2**53, lim), lim])
-            wrap = r.random() < 0.3
+            wrap = r.random() < 0.3 and t[0] != 'vec'   # (a container class with a huge vector field cannot be exercised: its default value is huge)
             tt = ['cont', 'u8', t, 'u16'] if wrap else t
             out.append(show(['path', tt] + ([1] if wrap else []) + [key] + ([1] if e[0] == 'cont' and key < lim and r.random() < 0.5 else [])))
         if tier == 'thorough':
@@ -1666,6 +1750,50 @@ class C17(Prop):
                 ops.append(r.choice([['slice', r.randint(0, n), r.randint(0, n)], ['slice', r.randint(0, n), r.randint(0, n)],
                                      ['elem', r.randint(0, n)], ['len']]))
             out.append(show(['partial', t, v, pos] + ops))
+        # mutations through child views of a partial tree
+        for _ in range(self.n(tier) // 5):
+            t = nested_ty(g, r.choice([1, 2, 2]))
+            v = g.val(t, 8)
+            cand = [x for x in positions(t, v) if x > 1]
+            pos = ['pos'] + [r.choice(cand) if cand and r.random() < 0.8 else r.randint(2, 31) for _ in range(r.choice([1, 1, 2]))]
+            observe = lambda: r.choice([['bytes'], ['read'], ['root'], ['elem', r.randint(0, 4)]])
+            ops = nested_write_ops(g, t, v, r.choice([2, 4, 8]), observe)
+            if ops:
+                out.append(show(['partial', t, v, pos] + ops + [['read'], ['root']]))
+        # appends into a slot whose parent (grandparent) subtree is summarised while it still holds live data
+        for _ in range(self.n(tier) // 5):
+            if r.random() < 0.5:
+                e = r.choice(['u64', 'u8', 'u16', 'u128', 'u256', 'bool'])
+                per = 32 // UINT_W.get(e, 1)
+                chunks = r.choice([1, 1, 2, 3, 5])
+                ln = per * chunks
+                lim = per * r.choice([8, 16, 64])
+                t = ['list', e, lim]
+                v = ['s'] + [g.max_val(e) for _ in range(ln)]
+                d = _get_depth(lim // per)
+                slot = chunks
+                one = lambda: g.val(e, 1)
+            elif r.random() < 0.5:
+                e = r.choice([['cont', 'u8', 'u16'], ['Bv', 32], ['vec', 'u64', 4]])
+                ln = r.choice([1, 1, 2, 3, 5])
+                lim = r.choice([8, 16, 9])
+                t = ['list', e, lim]
+                v = ['s'] + [g.max_val(e) for _ in range(ln)]
+                d = _get_depth(lim)
+                slot = ln
+                one = lambda: g.val(e, 3)
+            else:
+                chunks = r.choice([1, 1, 2, 3])
+                lim = 256 * r.choice([8, 16])
+                t = ['bl', lim]
+                v = 'b' + '1' * (256 * chunks)
+                d = _get_depth(lim // 256)
+                slot = chunks
+                one = lambda: r.choice('01')
+            leaf = (2 << d) | slot
+            pos = ['pos', leaf >> r.choice([1, 1, 1, 2])]
+            ops = [['app', one()], ['read'], ['root'], ['app', one()], ['bytes']]
+            out.append(show(['partial', t, v, pos] + ops))
         return out
 
     def nontrivial(self, c):
@@ -1699,7 +1827,7 @@ class C17(Prop):
                 if not (c or '').startswith('err'):
                     out.append(F('prop', 'access to a partial tree failed with another error: op %d %s' % (i, show(op)), a, 'err:nav|err:index'))
                     break
-            if not a.startswith('ok') and (c or '').startswith('ok') and op[0] in ('set', 'app', 'pop', 'chg', 'cpy', 'sets'):
+            if not a.startswith('ok') and (c or '').startswith('ok') and op[0] in ('set', 'app', 'pop', 'chg', 'cpy', 'sets', 'sub'):
                 diverged = True   # the complete view moved on; later results are compared with the model only
             # correspondence with the model (which is proved to fail only where an excluded subtree is needed)
             am = a if a.startswith('ok') else 'err'
@@ -1767,6 +1895,14 @@ class C20(Prop):
                 if r.random() < 0.5:
                     ops.append(observe())
             out.append(show(['virt', t, v] + ops + [['read']]))
+        for _ in range(self.n(tier) // 4):
+            t = r.choice([['cont', 'u8', ['vec', 'u64', r.randint(1, 4)], ['bv', r.choice([3, 200, 256])], 'u16', ['list', 'u16', 40]],
+                          ['list', ['cont', 'u8', ['vec', 'u64', 4]], 4], ['vec', ['bv', 10], 3], ['list', ['vec', 'u16', 16], 5],
+                          ['union', 'none', ['vec', 'u32', 8], ['bl', 300]], nested_ty(g, 2)])
+            v = g.val(t, 6)
+            observe = lambda: r.choice([['bytes'], ['bytes'], ['iter'], ['read'], ['root'], ['len']])
+            ops = [observe()] + nested_write_ops(g, t, v, r.choice([2, 4, 8]), observe)
+            out.append(show(['virt', t, v] + ops + [['read'], ['bytes']]))
         # tree level: the same tree served lazily, against the virtual-tree model
         for _ in range(self.n(tier)):
             tr = g.tree(r.choice([1, 2, 3, 4, 5]), r.choice([0.1, 0.3, 0.5]))
